@@ -41,7 +41,7 @@ theorem iteVals_val {r : Nat} {c : LinComb} (hc : BoolLC c) {tv fv o : TVal} {n 
     simp only [Prod.mk.injEq] at h3
     obtain ⟨rfl, _⟩ := h3
     obtain ⟨ho, _, rfl⟩ := freshS_ok h2
-    obtain ⟨_, _, hk, vr⟩ := iteScalar_rep a.toVal_isS b.toVal_isS h1
+    obtain ⟨_, _, hk, vr, _⟩ := iteScalar_rep a.toVal_isS b.toVal_isS h1
     refine ⟨hsame, ?_, fun _ => ?_⟩
     · rw [denT_leaf, denT_leaf, denT_leaf, SVal.ofVal_den ho, ← hr, vr, SVal.den_eq_rep, SVal.den_eq_rep]
       unfold dsel
@@ -49,7 +49,7 @@ theorem iteVals_val {r : Nat} {c : LinComb} (hc : BoolLC c) {tv fv o : TVal} {n 
       · simp [h0]
       · simp [h1]
     · rw [TVal.bok_leaf]
-      exact SVal.bok_of_not_lcb (fun l hl' => hk l (by rw [← SVal.ofVal_toVal ho]; exact hl'))
+      exact SVal.bok_of_lcb_bool (fun l hl' => hk l (by rw [← SVal.ofVal_toVal ho]; exact hl'))
   · obtain ⟨hd, hb⟩ := mergeT_val hc hr h
     exact ⟨hsame, hd, hb⟩
 
